@@ -372,6 +372,10 @@ def run_pp_case(case):
         rebind(pp, 'open', mem_open)
         rebind(pp.BaseS3TransferProcess, 'start', start_proc)
         rebind(pp.BaseS3TransferProcess, 'join', join_proc)
+        if case.get('io_chunk'):
+            # the worker's read size (2 MiB) scaled down, like the adjuster
+            # limits, so that full-size reads and short reads both occur
+            rebind(pp.GetObjectWorker, '_IO_CHUNKSIZE', case['io_chunk'])
         try:
             sched.run(main)
         except HarnessError as e:
